@@ -910,6 +910,199 @@ fn shrink(text: &str, which: &str, what: &str) -> String {
     lines.join("\n") + "\n"
 }
 
+
+// ------------------------------------------------------------------------------------------------
+// the checker's rule about jumps into FOR bodies / SELECT CASE blocks vs its model `jumpsEnclosedB`
+
+/// One program with one jump under test, written `@L` in `body`; `row` is the line of that jump.
+struct IntoCase {
+    what: String,
+    body: String,
+    row: usize,
+}
+
+/// GOTO / GOSUB x a label inside a FOR body, a CASE / CASE ELSE block or two of them nested x the place of the jump:
+/// before the block, behind it, in a sibling block, in the enclosing block (both sides), inside the block itself, one
+/// block further in than the label (leaving).  Main module, every statement on its own line in column 1.
+fn into_block_cases() -> Vec<IntoCase> {
+    fn wrap(kind: &str, var: &str, inner: &str) -> String {
+        match kind {
+            "for" => format!("FOR {}% = 1 TO 2\n{}NEXT\n", var, inner),
+            "forstep" => format!("FOR {}% = 1 TO 3 STEP 2\n{}NEXT\n", var, inner),
+            "case" => format!("SELECT CASE K%\nCASE 1\n{}CASE ELSE\nPRINT \"e\"\nEND SELECT\n", inner),
+            "caseelse" => format!("SELECT CASE K%\nCASE 5\nPRINT \"c\"\nCASE ELSE\n{}END SELECT\n", inner),
+            "while" => format!("WHILE W% < 2\nW% = W% + 1\n{}WEND\n", inner),
+            "if" => format!("IF K% = 1 THEN\n{}ELSE\nPRINT \"e\"\nEND IF\n", inner),
+            _ => unreachable!(),
+        }
+    }
+    let mut nests: Vec<Vec<&str>> = ["for", "forstep", "case", "caseelse", "while", "if"].iter().map(|b| vec![*b]).collect();
+    for (a, b) in [
+        ("for", "for"), ("for", "case"), ("case", "for"), ("caseelse", "for"), ("case", "caseelse"), ("for", "while"), ("while", "for"),
+        ("if", "case"), ("case", "if"), ("while", "if"),
+    ] {
+        nests.push(vec![a, b]);
+    }
+    let vars = ["I", "J"];
+    let at_label = "L:\nPRINT \"in\"; I%; J%\nC% = C% + 1\nIF C% > 4 THEN\nPRINT \"stop\"\nSYSTEM\nEND IF\n";
+    let mut out = vec![];
+    for nest in &nests {
+        for (kind, jump) in [("goto", "GOTO @L\n"), ("gosub", "GOSUB @L\nPRINT \"back\"\n")] {
+            let once = format!("IF D% = 0 THEN\nD% = 1\n{}END IF\n", jump);
+            let target = |extra: &str| {
+                let mut t = format!("{}{}", at_label, extra);
+                for (k, b) in nest.iter().enumerate().rev() {
+                    t = wrap(b, vars[k], &t);
+                }
+                t
+            };
+            let mut layouts: Vec<(&str, String)> = vec![
+                ("before", format!("{}{}", once, target(""))),
+                ("behind", format!("{}{}", target(""), once)),
+                ("sibling", format!("{}{}", wrap(nest[0], "S", &once), target(""))),
+                ("sibling-behind", format!("{}{}", target(""), wrap(nest[0], "S", &once))),
+                ("inside", target(&once)),
+            ];
+            if nest.len() == 2 {
+                let inner = wrap(nest[1], vars[1], at_label);
+                layouts.push(("enclosing", wrap(nest[0], vars[0], &format!("{}{}", once, inner))));
+                layouts.push(("enclosing-behind", wrap(nest[0], vars[0], &format!("{}{}", inner, once))));
+                layouts.push(("leaving", wrap(nest[0], vars[0], &format!("{}{}", at_label, wrap(nest[1], vars[1], &once)))));
+            }
+            for (layout, b) in layouts {
+                let body = format!("K% = 1\n{}PRINT \"after\"\nSYSTEM\n", b);
+                let row = 1 + body.lines().position(|l| l.contains("@L")).expect("the jump under test");
+                out.push(IntoCase { what: format!("{} {} {}", kind, nest.join(">"), layout), body, row });
+            }
+        }
+    }
+    out
+}
+
+/// the front end's verdict on a text: Ok(linted program) or Err(debug form of the error)
+fn front_end(text: &str) -> Result<rusty_parser::Program, String> {
+    let t = text.to_owned();
+    std::panic::catch_unwind(move || match rusty_parser::parse_main_str(t) {
+        Err(e) => Err(format!("parser: {:?}", e)),
+        Ok(p) => match rusty_linter::core::lint(p) {
+            Err(e) => Err(format!("linter: {:?}", e)),
+            Ok((linted, _)) => Ok(linted),
+        },
+    })
+    .unwrap_or_else(|_| Err("front end panicked".to_owned()))
+}
+
+/// Compares the real checker with `RbModel.JmpL.jumpsEnclosedB` on the family and on the programs explored before.
+fn check_enclosure(rep: &mut Report, explored: &[Case]) {
+    // every explored program was accepted by the real checker: the model of its rule must accept it too
+    let answers = ask(&explored.iter().map(|c| format!("(jmpl.enclosed {})", c.prog)).collect::<Vec<_>>());
+    for (c, a) in explored.iter().zip(answers.iter()) {
+        rep.bump(&format!("enclosure.explored.{}", a.replace(' ', "-")));
+        if !a.starts_with("(enclosed true") {
+            rep.fail(Failure {
+                kind: Kind::ModelVsImpl,
+                signature: "jmpl-enclosed:accepted-program".into(),
+                input: c.text.clone(),
+                implementation: "accepted by the real checker".into(),
+                expected: format!("model: {}", a),
+                note: "RbModel.JmpL.jumpsEnclosedB rejects a program the real label linter accepts".into(),
+            });
+        }
+    }
+    let cases = into_block_cases();
+    let mut reqs = vec![];
+    let mut rows = vec![];
+    for c in &cases {
+        rep.case(Some(format!("into-block|{}", c.what)));
+        let real_text = c.body.replace("@L", "L");
+        let shadow_text = format!("{}ZZL:\n", c.body.replace("@L", "ZZL"));
+        let real = front_end(&real_text);
+        let shadow = match front_end(&shadow_text) {
+            Ok(p) => p,
+            Err(e) => {
+                rep.fail(Failure {
+                    kind: Kind::ModelVsImpl,
+                    signature: "jmpl-enclosed:shadow-rejected".into(),
+                    input: shadow_text,
+                    implementation: e,
+                    expected: "the shadow program (tested jump redirected to a top-level label) is accepted".into(),
+                    note: c.what.clone(),
+                });
+                continue;
+            }
+        };
+        let Some(pp) = jmpl_sx::program_unshadowed(&shadow) else {
+            // a label inside the body of a FOR ... STEP: outside the modelled layer (finding C05-a)
+            rep.bump("into-block.outside-layer");
+            rep.bump(&format!("into-block.outside-layer.real-{}", if real.is_ok() { "accepted" } else { "rejected" }));
+            continue;
+        };
+        // the un-shadowed serialisation is that of the program itself whenever the checker lets us see it
+        if let Ok(linted) = &real {
+            if jmpl_sx::program(linted).map(|q| q.program) != Some(pp.program.clone()) {
+                rep.fail(Failure {
+                    kind: Kind::ModelVsImpl,
+                    signature: "jmpl-enclosed:shadow-differs".into(),
+                    input: real_text.clone(),
+                    implementation: "serialisation of the linted program".into(),
+                    expected: "the same s-expression from the shadow program".into(),
+                    note: c.what.clone(),
+                });
+            }
+        }
+        reqs.push(format!("(jmpl.enclosed {})", pp.program));
+        rows.push((c, real_text, real.err()));
+    }
+    let answers = ask(&reqs);
+    for ((c, text, real_err), a) in rows.iter().zip(answers.iter()) {
+        let model_ok = a.starts_with("(enclosed true");
+        let premise = a.ends_with("true)");
+        if !a.starts_with("(enclosed ") {
+            rep.bump("into-block.unreadable");
+        }
+        // the new error: Label not defined, at the jump
+        let real_rule = real_err.as_ref().map(|e| e.contains("LabelNotDefined") && e.contains(&format!("row: {}, col: 1 ", c.row)));
+        let real_word = match (&real_err, real_rule) {
+            (None, _) => "accepted",
+            (Some(_), Some(true)) => "rejected(LabelNotDefined-at-the-jump)",
+            _ => "rejected(other)",
+        };
+        rep.bump(&format!("into-block.real-{}", real_word));
+        rep.bump(&format!("into-block.model-{}", if model_ok { "accepts" } else { "rejects" }));
+        rep.bump(&format!("into-block.progWfB-{}.real-{}", premise, real_word));
+        if !premise && model_ok {
+            rep.bump("into-block.enclosed-but-outside-premise(GOSUB-label-not-at-depth-0)");
+        }
+        if premise && !model_ok {
+            rep.fail(Failure {
+                kind: Kind::ModelVsImpl,
+                signature: "jmpl-enclosed:premise-without-rule".into(),
+                input: text.clone(),
+                implementation: a.clone(),
+                expected: "progWfB = true implies jumpsEnclosedB = true (theorem progWf_enclosed)".into(),
+                note: c.what.clone(),
+            });
+        }
+        if model_ok != real_err.is_none() || (!model_ok && real_rule != Some(true)) {
+            rep.fail(Failure {
+                kind: Kind::ModelVsImpl,
+                signature: format!("jmpl-enclosed:verdict:{}", c.what.split(' ').next().unwrap_or("")),
+                input: text.clone(),
+                implementation: match &real_err {
+                    None => "accepted by the real checker".to_owned(),
+                    Some(e) => format!("rejected: {}", e),
+                },
+                expected: format!("model: {} (jump under test in line {})", a, c.row),
+                note: format!("{}: RbModel.JmpL.jumpsEnclosedB says reject exactly when the real label linter answers LabelNotDefined at the jump", c.what),
+            });
+        }
+    }
+    rep.exhaustive_parts.push(format!(
+        "into-block: GOTO / GOSUB x label inside FOR, FOR STEP, CASE, CASE ELSE, WHILE, IF and 10 two-level nests x 5-8 places of the jump ({} programs): real label linter vs jumpsEnclosedB",
+        cases.len()
+    ));
+}
+
 fn main() {
     if let Some(path) = std::env::args().nth(1) {
         if path == "--gen" {
@@ -1215,5 +1408,6 @@ fn main() {
             }
         }
     }
+    check_enclosure(&mut rep, &cases);
     rep.finish();
 }
